@@ -5,7 +5,13 @@ import json, sys
 props = {json.loads(l)['id']: json.loads(l) for l in open('/verif/properties.jsonl')}
 pid, wt = sys.argv[1], sys.argv[2]
 K = sys.argv[3] if len(sys.argv) > 3 else None
+MODE = sys.argv[4] if len(sys.argv) > 4 else ""
 p = props[pid]
+EXTRA = ""
+if MODE == "coop":
+    EXTRA = "SHAPE RULE: the change must consist of TWO cooperating edits in two different functions (preferably different files), each of which is harmless when applied alone (say so in meta.json and verify it if you can: the demo passes with either edit alone). Only candidates of that shape count for the candidate list below.\n\n"
+elif MODE == "cosmos":
+    EXTRA = "LOCATION RULE: the change must be in code that only the cosmosdb storage back-end uses (workflow/storage/cosmosdb, non-test files, not fake_*.go) or must only manifest when the engine runs on the cosmosdb vault. The package's own tests show how to build a Vault over the in-package fake client (see crud_test.go / newFakeStorage); your demonstration may be an in-package test file workflow/storage/cosmosdb/seeded_demo_test.go.\n\n"
 DIVERSITY = "" if K is None else f"DIVERSITY RULE: do not take the first idea. First write down at least 8 candidate changes that are located in at least 5 different functions (and in different files where the behaviour behind the property spans several files: state machine, action runner, recovery, storage back-ends sqlite AND cosmosdb, validation, helpers), number them 1..n, then work on candidate number (({K} - 1) mod n) + 1; only if that one cannot be made to pass the existing suite move on to the next number. Say in meta.json which candidates you listed.\n\n"
 print(f"""You are given a Go repository (a workflow engine: module github.com/element-of-surprise/coercion) as a scratch git worktree at {wt}. Work ONLY inside {wt} (never touch /repo, never look at /verif — it is off limits).
 
@@ -15,7 +21,7 @@ PROPERTY ({pid}: {p['title']}):
 
 TASK: produce ONE realistic code change to the engine (non-test .go files under {wt}) that BREAKS this property while (a) the repository still compiles, and (b) the repository's existing test suite still passes. The change should look like a plausible regression/refactoring mistake a developer could make (wrong condition, dropped wait/lock/flush, reordered statements, off-by-one, wrong variable, missing propagation, two cooperating sites that each look fine alone ...). It must NOT be something ordinary use would expose at once: it should need something specific to manifest — a particular interleaving, a crash or fault at a particular point, a multi-step sequence of operations, an unusual input or configuration, or a specific plan shape. Keep the diff small (typically 1-15 lines). Do not touch test files, do not add build tags, do not change public API signatures.
 
-{DIVERSITY}ENVIRONMENT: no network. For every go command use exactly: `export GOFLAGS=-mod=mod GOPROXY=off` (do NOT set GOTOOLCHAIN or GOSUMDB). Run the existing suite with `cd {wt} && go test -vet=off -count=1 ./...` (takes ~2-3 min because of internal/etoe); it must pass with your change applied (run it, do not assume).
+{EXTRA}{DIVERSITY}ENVIRONMENT: no network. For every go command use exactly: `export GOFLAGS=-mod=mod GOPROXY=off` (do NOT set GOTOOLCHAIN or GOSUMDB). Run the existing suite with `cd {wt} && go test -vet=off -count=1 ./...` (takes ~2-3 min because of internal/etoe); it must pass with your change applied (run it, do not assume).
 
 DEMONSTRATION: write a demonstration that the property is really broken: a Go test file `{wt}/internal/etoe/seeded_demo_test.go` (package etoe; or another suitable package / a small main program under {wt}/cmd_demo/ if easier) that drives the PUBLIC behaviour (coercion.New / Submit / Start / Wait / storage vault API / the relevant public package) with your own plugins, and FAILS with your change and PASSES on the unchanged code (to verify both ways use `git diff > /tmp/<name>.diff; git apply -R /tmp/<name>.diff; ...; git apply /tmp/<name>.diff` — do NOT use `git stash`: the stash is shared with other worktrees of this repository and other people are using it; if the failure is schedule-dependent, loop inside the test until it shows, and say how many iterations it typically needs). Look at {wt}/internal/etoe/*_test.go and {wt}/workflow/storage/sqlite/testing/plugins for how to write plugins and run plans (sqlite.New(ctx, "", reg, sqlite.WithInMemory()) gives an in-memory store).
 
